@@ -70,6 +70,7 @@ class Tree:
         ns_meta = type(ArgsNamespace)
         self.cls = [Renderable]
         self.args = [None]
+        self.sub = [None]  # a SUBCLASS of each namespace class (inherits fields + association)
         for c in range(1, self.n + 1):
             rc = meta(f"K{c}_{tag}", (self.cls[par[c - 1]],), {})
             self.cls.append(rc)
@@ -78,8 +79,11 @@ class Tree:
                 for f in range(1, nf(c) + 1):
                     body[f"f{f}"] = dflt(c, f)
                 self.args.append(ns_meta(f"K{c}Args_{tag}", (ArgsNamespace,), body, render_cls=rc))
+                self.sub.append(ns_meta(f"K{c}HandyArgs_{tag}", (self.args[c],),
+                                        {"describe": lambda self: repr(self)}))
             else:
                 self.args.append(None)
+                self.sub.append(None)
         self.index = {rc: i for i, rc in enumerate(self.cls)}
 
     # -- observation -----------------------------------------------------------------
@@ -130,7 +134,7 @@ class Tree:
         objs = _Operands(self, objs)
         try:
             if name == "NsNew":
-                r = self.args[c](**kwargs)
+                r = (self.sub[c] if b == 1 else self.args[c])(**kwargs)
             elif name == "NsUpdate":
                 r = objs[a].update(**kwargs)
             elif name == "New":
@@ -187,7 +191,14 @@ def relations(tree: Tree, live: list) -> dict:
                 if isinstance(live[j], ArgsNamespace) and live[j] in live[i]:
                     ct.append([i + 1, j + 1])
     refl = [i + 1 for i in range(n) if not (live[i] == live[i])]
-    return {"eq": eq, "heq": heq, "ct": ct, "asym": ne_asym, "nonrefl": refl}
+    # what users rely on: an equal object is found as a dict key / set member
+    dmiss = []
+    for i, j in eq:
+        for a, b in ((i, j), (j, i)):
+            x, y = live[a - 1], live[b - 1]
+            if y not in {x: None} or y not in {x} or len({x, y}) != 1:
+                dmiss.append([a, b])
+    return {"eq": eq, "heq": heq, "ct": ct, "asym": ne_asym, "nonrefl": refl, "dmiss": dmiss}
 
 
 # ---- namespace-class rules ------------------------------------------------------------
